@@ -288,6 +288,40 @@ theorem returnedCount_eq (b : Blk) (k : GAEC) :
       · simp only [hg, decide_false, Bool.false_eq_true, if_false]
         exact ih
 
+open CdnsVerif.Model.Builder CdnsVerif.Model.ReadBlock in
+/-- the narrowing `read_generic_qr` applies to the answer count (`uint32_t` table member → `uint16_t` record member) changes nothing
+    for records the application can hand over: their answer count is a `uint16_t` -/
+theorem narrowQ_project (h : Hints) (g : GQR) (hg : GqrOk g) : narrowQ (project h g) = project h g := by
+  have : (project h g).ancount.map (· % 65536) = (project h g).ancount := by
+    show (keep _ g.ancount).map (· % 65536) = keep _ g.ancount
+    unfold keep
+    split
+    · cases ha : g.ancount with
+      | none => rfl
+      | some n => simp only [Option.map_some]; rw [Nat.mod_eq_of_lt (hg.ancount n ha)]
+    · rfl
+  unfold narrowQ
+  rw [this]
+
+open CdnsVerif.Model.Builder CdnsVerif.Model.ReadBlock in
+theorem narrow_expected (h : Hints) (recs : List Rec) (hrecs : ∀ r ∈ recs, RecOk r) :
+    (expectedQrs h recs).map narrowQ = expectedQrs h recs := by
+  unfold expectedQrs
+  induction recs with
+  | nil => rfl
+  | cons r rest ih =>
+    have ihr := ih (fun x hx => hrecs x (List.mem_cons_of_mem _ hx))
+    have hr := hrecs r (List.mem_cons_self ..)
+    cases r with
+    | aec g st => simpa only [List.filterMap_cons] using ihr
+    | mm g st => simpa only [List.filterMap_cons] using ihr
+    | qr g st =>
+      by_cases hany : (project h g).anySome = true
+      · simp only [List.filterMap_cons, hany, if_true, List.map_cons, narrowQ_project h g hr.1]
+        exact congrArg _ ihr
+      · simp only [List.filterMap_cons, hany, Bool.false_eq_true, if_false]
+        exact ihr
+
 open CdnsVerif.Model.Builder CdnsVerif.Model.Schema CdnsVerif.Model.Structs CdnsVerif.Model.File CdnsVerif.Model.ReadBlock CdnsVerif.Model.Timestamp in
 /-- **Export → file → read, end to end.**  For every hint setting, every tick rate ≥ 1 and every sequence of buffered records whose
     members fit the C++ member widths and whose times are representable (the preconditions the property states), the file the
@@ -323,7 +357,11 @@ theorem export_read_records (h : Hints) (recs : List Rec) (pi : Option Nat) (pv 
     (fun q hq => hback q.ts fun t ht => htr.1 q hq t ht) (fun m hm => hback m.ts fun t ht => htr.2 m hm t ht) (nodup_of_nodup_map _ _ (aec_keys_nodup h recs))
   obtain ⟨r, hr1, hr2, hr3, hr4⟩ := records_closed (readBackOf (build h recs)) (closed_readBackOf _ (inv_build h recs).1)
   refine ⟨_, _, r, hf fuel hfu, hov, hr1, ?_, ?_, ?_, ?_, rfl⟩
-  · rw [hr2]; exact records_resolve_to_projection h recs
+  · rw [hr2]
+    show List.map (fun q => narrowQ (resolveQ (build h recs) q)) (build h recs).qrs = _
+    rw [show (fun q => narrowQ (resolveQ (build h recs) q)) = narrowQ ∘ resolveQ (build h recs) from rfl, ← List.map_map,
+      records_resolve_to_projection]
+    exact narrow_expected h recs hrecs
   · rw [hr3]; exact malformed_messages_read_back h recs
   · intro k
     rw [hr4]
@@ -369,7 +407,11 @@ theorem built_block_outcome (h : Hints) (g : List Rec) (pi : Option Nat) (rates 
   obtain ⟨r, hr1, hr2, hr3, hr4⟩ := records_closed (readBackOf (build h g)) (closed_readBackOf _ (inv_build h g).1)
   refine ⟨{ blk := readBackOf (build h g), pi := pi, tps := h.tps }, r, ?_, ?_, ?_, ?_, ?_, rfl⟩
   · simp only [blockOutcome, hov, hr1]
-  · rw [hr2]; exact records_resolve_to_projection h g
+  · rw [hr2]
+    show List.map (fun q => narrowQ (resolveQ (build h g) q)) (build h g).qrs = _
+    rw [show (fun q => narrowQ (resolveQ (build h g) q)) = narrowQ ∘ resolveQ (build h g) from rfl, ← List.map_map,
+      records_resolve_to_projection]
+    exact narrow_expected h g hg.recs
   · rw [hr3]; exact malformed_messages_read_back h g
   · intro k
     rw [hr4]
